@@ -9,6 +9,7 @@ Case (plain JSON)::
      "data": [enc d1, enc d2]                        two data assignments (tagged encoding below)
      "globals": enc dict                             extra environment globals (containers)
      "tglobals": {name: enc dict}                    template-level globals passed to get_template(name, globals=...)
+     "tglobals_late": [names]                        these are first loaded without globals and then requested again with them
      "history": [[name, entry, data index], ...]     every rendered template occurs >= 3 times
      "async": bool, "autoescape": false | true | "fn" (decided by template name, select_autoescape style)
      "threads": None | {"n": 8..16, "reps": int, "preload": bool}}
@@ -338,6 +339,7 @@ class World:
         self.extra_globals = dec(case.get("globals") or {}, self.env)
         self.env.globals.update(self.extra_globals)
         self.tglobals = {n: dec(g, self.env) for n, g in (case.get("tglobals") or {}).items()}
+        self.late = set(case.get("tglobals_late") or ())
         self.datas = None
         self.templates = {}
 
@@ -353,8 +355,16 @@ class World:
         t = self.templates.get(name)
         if t is None:
             g = self.tglobals.get(name)
-            t = self.env.get_template(name, globals=g) if g is not None else self.env.get_template(name)
+            if g is not None and name in self.late:
+                # first loaded without globals, then requested again with them: documented to add the new items to the
+                # cached template's own globals
+                self.env.get_template(name)
+                t = self.env.get_template(name, globals=g)
+            else:
+                t = self.env.get_template(name, globals=g) if g is not None else self.env.get_template(name)
             self.templates[name] = t
+        elif name in self.late and self.tglobals.get(name) is not None:
+            t = self.env.get_template(name, globals=self.tglobals[name])  # asked for again with the same globals: no new items
         return t
 
     def snapshots(self):
@@ -534,13 +544,17 @@ def check_case(case):
             w = None
         # 2. history on one shared environment
         world = World(case, sources)
+        base = world.snapshots()  # before anything is loaded: loading with template-level globals must not touch env.globals
         for name in sorted(sources):
             try:
                 world.template(name)
             except _allowed():
                 pass
         world.decode_data()
-        base = world.snapshots()
+        loaded = world.snapshots()
+        loaded.update(base)  # the data snapshots are new, everything else keeps its value from before the loading
+        base = loaded
+        _compare_snaps(world, base, {}, "after loading the templates", case, sources)
         tbase = world.template_snapshots()
         for i, (name, entry, di) in enumerate(case["history"]):
             got = run_entry(world, name, entry, di, loop)
@@ -943,6 +957,8 @@ def _strategy(sizes):
             for n in users:
                 if draw(st.booleans()):
                     case["tglobals"][n] = draw(tglob_s)
+                    if draw(st.booleans()):
+                        case.setdefault("tglobals_late", []).append(n)
         elif kind == "stmt":
             progs = {"p0": draw(G.programs(max_depth=pdepth, max_nodes=pnodes, errors=draw(st.integers(0, 2)) == 0))}
             if draw(st.booleans()):
